@@ -13,30 +13,37 @@ Open Scope Z_scope.
    state after h is the one the reference produces for h.  Holds because (i) the operands of
    cached compiled code are re-checked at call time (fix d5a263f), (ii) the parse cache key contains
    the module and (iii) a text whose parse switches the module is never stored in the parse cache
-   (fix 012f393) — three regenerated flags; it does not depend on whether assignments clear the
+   (fix 012f393), (iv) evaluation does not write into the syntax tree it evaluates other than the `_compiled`
+   memo — four regenerated flags; it does not depend on whether assignments clear the
    compiled cache. *)
 Theorem C04_cache_transparent : forall clear_on_set parse s0 h t,
-  let st := state_after compiled_args_rechecked clear_on_set parse_cache_key_has_module parse parse_cache_skips_switching_texts (fresh s0) h in
-  let r := run_cached compiled_args_rechecked clear_on_set parse_cache_key_has_module parse parse_cache_skips_switching_texts st t in
+  let st := state_after compiled_args_rechecked clear_on_set parse_cache_key_has_module parse parse_cache_skips_switching_texts eval_does_not_write_nodes (fresh s0) h in
+  let r := run_cached compiled_args_rechecked clear_on_set parse_cache_key_has_module parse parse_cache_skips_switching_texts eval_does_not_write_nodes st t in
   (fst r, (cur (snd r), vars (snd r))) = eval_ref parse (cur st, vars st) t
   /\ (cur st, vars st) = ref_after parse (0, s0) h.
 Proof.
   exact (eq_ind_r (fun f => forall clear_on_set parse s0 h t,
-            let st := state_after f clear_on_set parse_cache_key_has_module parse parse_cache_skips_switching_texts (fresh s0) h in
-            let r := run_cached f clear_on_set parse_cache_key_has_module parse parse_cache_skips_switching_texts st t in
+            let st := state_after f clear_on_set parse_cache_key_has_module parse parse_cache_skips_switching_texts eval_does_not_write_nodes (fresh s0) h in
+            let r := run_cached f clear_on_set parse_cache_key_has_module parse parse_cache_skips_switching_texts eval_does_not_write_nodes st t in
             (fst r, (cur (snd r), vars (snd r))) = eval_ref parse (cur st, vars st) t
             /\ (cur st, vars st) = ref_after parse (0, s0) h)
           (eq_ind_r (fun g => forall clear_on_set parse s0 h t,
-            let st := state_after true clear_on_set g parse parse_cache_skips_switching_texts (fresh s0) h in
-            let r := run_cached true clear_on_set g parse parse_cache_skips_switching_texts st t in
+            let st := state_after true clear_on_set g parse parse_cache_skips_switching_texts eval_does_not_write_nodes (fresh s0) h in
+            let r := run_cached true clear_on_set g parse parse_cache_skips_switching_texts eval_does_not_write_nodes st t in
             (fst r, (cur (snd r), vars (snd r))) = eval_ref parse (cur st, vars st) t
             /\ (cur st, vars st) = ref_after parse (0, s0) h)
            (eq_ind_r (fun k => forall clear_on_set parse s0 h t,
-            let st := state_after true clear_on_set true parse k (fresh s0) h in
-            let r := run_cached true clear_on_set true parse k st t in
+            let st := state_after true clear_on_set true parse k eval_does_not_write_nodes (fresh s0) h in
+            let r := run_cached true clear_on_set true parse k eval_does_not_write_nodes st t in
             (fst r, (cur (snd r), vars (snd r))) = eval_ref parse (cur st, vars st) t
             /\ (cur st, vars st) = ref_after parse (0, s0) h)
-            cache_transparent (eq_refl : parse_cache_skips_switching_texts = true))
+            (eq_ind_r (fun w => forall clear_on_set parse s0 h t,
+             let st := state_after true clear_on_set true parse true w (fresh s0) h in
+             let r := run_cached true clear_on_set true parse true w st t in
+             (fst r, (cur (snd r), vars (snd r))) = eval_ref parse (cur st, vars st) t
+             /\ (cur st, vars st) = ref_after parse (0, s0) h)
+             cache_transparent (eq_refl : eval_does_not_write_nodes = true))
+            (eq_refl : parse_cache_skips_switching_texts = true))
            (eq_refl : parse_cache_key_has_module = true))
           (eq_refl : compiled_args_rechecked = true)).
 Qed.
@@ -53,14 +60,14 @@ Definition r15_parse (t : text) (m : module) : expr * module :=
 
 Theorem C04_cache_refuted_without_recheck :
   exists parse h t,
-    let st := state_after false true true parse true (fresh []) h in
-    fst (run_cached false true true parse true st t) <> fst (eval_ref parse (cur st, vars st) t).
+    let st := state_after false true true parse true true (fresh []) h in
+    fst (run_cached false true true parse true true st t) <> fst (eval_ref parse (cur st, vars st) t).
 Proof. exists r15_parse, [1; 2; 3; 4], 3. vm_compute. discriminate. Qed.
 
 Example C04_cache_example :
-  let st := state_after true true true r15_parse true (fresh []) [1; 2; 3; 4] in
-  fst (run_cached true true true r15_parse true st 3) = Err /\
-  fst (run_cached true true true r15_parse true (state_after true true true r15_parse true (fresh []) [1; 2; 3]) 3) = Ok (VInt 6) /\
+  let st := state_after true true true r15_parse true true (fresh []) [1; 2; 3; 4] in
+  fst (run_cached true true true r15_parse true true st 3) = Err /\
+  fst (run_cached true true true r15_parse true true (state_after true true true r15_parse true true (fresh []) [1; 2; 3]) 3) = Ok (VInt 6) /\
   memo st <> [].
 Proof. vm_compute. repeat split; discriminate. Qed.
 
@@ -74,10 +81,23 @@ Definition red_parse (t : text) (m : module) : expr * module :=
    EDef 10 (ELit (VList [])), m).
 
 Example C04_reduce_example :
-  fst (run_cached true true true red_parse true (state_after true true true red_parse true (fresh []) [1; 2; 3]) 2) = Ok (VList []) /\
-  fst (run_cached false true true red_parse true (state_after false true true red_parse true (fresh []) [1; 2; 3]) 2) = Ok (VInt 0) /\
-  fst (run_cached true true true red_parse true (state_after true true true red_parse true (fresh []) [1]) 2) = Ok (VInt 6).
+  fst (run_cached true true true red_parse true true (state_after true true true red_parse true true (fresh []) [1; 2; 3]) 2) = Ok (VList []) /\
+  fst (run_cached false true true red_parse true true (state_after false true true red_parse true true (fresh []) [1; 2; 3]) 2) = Ok (VInt 0) /\
+  fst (run_cached true true true red_parse true true (state_after true true true red_parse true true (fresh []) [1]) 2) = Ok (VInt 6).
 Proof. vm_compute. repeat split; reflexivity. Qed.
+
+(* seeded change C04-10: evaluation writes the evaluated operands back into the node (a projection that freezes its
+   arguments): a::[1 2]; c::#a; a::[1 2 3]; c::#a — the cached tree of the text carries the first value of a *)
+Definition frz_parse (t : text) (m : module) : expr * module :=
+  (if t =? 1 then EDef 10 (ELit (VList [1; 2])) else
+   if t =? 2 then EDef 12 (ESize (EVar 10)) else
+   EDef 10 (ELit (VList [1; 2; 3])), m).
+
+Theorem C04_cache_refuted_when_eval_writes_nodes :
+  exists parse h t,
+    let st := state_after true true true parse true false (fresh []) h in
+    fst (run_cached true true true parse true false st t) <> fst (eval_ref parse (cur st, vars st) t).
+Proof. exists frz_parse, [1; 2; 3], 2. vm_compute. discriminate. Qed.
 
 (* module switches.  Text 1 = `.module(:m)` (switches to module 7 while being parsed), text 3 =
    `.module(0)`, text 2 = `t::1`, which the parser reads as t`m::1 (name 20) inside the module and as
@@ -91,8 +111,8 @@ Definition mod_parse (t : text) (m : module) : expr * module :=
    then t::1 at global level re-uses the tree parsed inside the module and assigns the module's t *)
 Theorem C04_cache_refuted_with_text_only_key :
   exists parse h t,
-    let st := state_after true true false parse true (fresh []) h in
-    let r := run_cached true true false parse true st t in
+    let st := state_after true true false parse true true (fresh []) h in
+    let r := run_cached true true false parse true true st t in
     (fst r, (cur (snd r), vars (snd r))) <> eval_ref parse (cur st, vars st) t.
 Proof. exists mod_parse, [1; 2; 3], 2. vm_compute. discriminate. Qed.
 
@@ -101,15 +121,15 @@ Proof. exists mod_parse, [1; 2; 3], 2. vm_compute. discriminate. Qed.
    .module(:m); .module(0); .module(:m) *)
 Theorem C04_cached_module_switch_refuted :
   exists parse h t,
-    let st := state_after true true true parse false (fresh []) h in
-    let r := run_cached true true true parse false st t in
+    let st := state_after true true true parse false true (fresh []) h in
+    let r := run_cached true true true parse false true st t in
     (fst r, (cur (snd r), vars (snd r))) <> eval_ref parse (cur st, vars st) t.
 Proof. exists mod_parse, [1; 3], 1. vm_compute. discriminate. Qed.
 
 Example C04_modules_example :
-  vars (state_after true true true mod_parse true (fresh []) [1; 2; 3; 2; 1; 2]) = [(20, VInt 1); (10, VInt 1)] /\
-  cur (state_after true true true mod_parse true (fresh []) [1; 2; 3; 2; 1]) = 7 /\
-  pcache (state_after true true true mod_parse true (fresh []) [1; 3; 1]) = [].
+  vars (state_after true true true mod_parse true true (fresh []) [1; 2; 3; 2; 1; 2]) = [(20, VInt 1); (10, VInt 1)] /\
+  cur (state_after true true true mod_parse true true (fresh []) [1; 2; 3; 2; 1]) = 7 /\
+  pcache (state_after true true true mod_parse true true (fresh []) [1; 3; 1]) = [].
 Proof. vm_compute. repeat split; reflexivity. Qed.
 
 (* what the model's `pure` stands for: no verb implementation stores into its parameters, and no memo table / cache
